@@ -49,6 +49,7 @@ func init() {
 		ok := c.w.applyUF(c.s, "b64ok", []Value{opaqueStr(e)}, "Bool", "bool")
 		c.s.addPC(tEq(d, b.term()))
 		c.s.addPC(ok)
+		c.s.addPC(tEq(tEq(e, `""`), tEq(b.term(), `""`))) // empty iff the input is empty
 		if enc := encOf(c); enc == base64.URLEncoding || enc == base64.StdEncoding {
 			c.s.addPC("(= (mod (str.len " + e + ") 4) 0)") // padded encodings
 		}
